@@ -27,7 +27,7 @@ QuickBricks == {Brick("Plastic", "Mises", "Linear", "none"), Brick("Norton", "Mi
                 Brick("Plastic", "Mises", "Linear", "Prager"), Brick("Norton", "Hill", "none", "none"),
                 Brick("HyperbolicSine", "Mises", "Voce", "none")}
 \* the quick tier keeps one representative of each family of algorithms
-QuickAlgos == {"none", "NewtonRaphson", "NewtonRaphson_NumericalJacobian", "Broyden", "LevenbergMarquardt", "euler", "rk4", "rk54", "rkCastem"}
+QuickAlgos == {"none", "quadratic", "NewtonRaphson", "NewtonRaphson_NumericalJacobian", "Broyden", "LevenbergMarquardt", "euler", "rk4", "rk54", "rkCastem"}
 QuickBehaviours ==
   {b \in HandBehaviours : /\ b.algo \in QuickAlgos
                           /\ ~(b.law = "elastic" /\ b.dsl = "RungeKutta" /\ b.algo # "rk54")
